@@ -84,16 +84,28 @@ def gen_history(rng, thorough):
     return out
 
 
+def idstr(mid):
+    """SMSC message ids are strings; neighbouring ids differ only in the case of a letter (ids are case-sensitive)"""
+    if mid in (0, 9999, 4242, 7777):
+        return str(mid)
+    return ('Qx' if mid % 2 else 'qX') + str(mid // 2)
+
+
+def idnum(s):
+    return int(s) if s.isdigit() else 2 * int(s[2:]) + (1 if s.startswith('Qx') else 0)
+
+
 def build_receipt_pdu(seqnum, mid, err, how):
     # the echoed beginning of the message text may itself look like receipt fields (it is free text up to the end)
-    echoed = ['hello', 'hello', f'Order id:{mid + 1} shipped', f'ref id:{mid - 1}', 'x err:999 stat:FAILED', 'ID:9999 y', f'a:b id:{mid + 2}'][(seqnum * 7 + mid) % 7]
-    text = f'id:{mid if how in ("text", "both") else ""} sub:001 dlvrd:001 submit date:2401011200 done date:2401011201 stat:{"DELIVRD" if err == 0 else "UNDELIV"} err:{err:03d} Text:{echoed}'
+    echoed = ['hello', 'hello', f'Order id:{idstr(mid + 1)} shipped', f'ref id:{idstr(mid - 1)}', 'x err:999 stat:FAILED', 'ID:9999 y',
+              f'a:b id:{idstr(mid + 2)}'][(seqnum * 7 + mid) % 7]
+    text = f'id:{idstr(mid) if how in ("text", "both") else ""} sub:001 dlvrd:001 submit date:2401011200 done date:2401011201 stat:{"DELIVRD" if err == 0 else "UNDELIV"} err:{err:03d} Text:{echoed}'
     if how == 'none':
         text = 'sub:001 dlvrd:001 stat:DELIVRD err:000 Text:x'
     tlvs = b''
     if how in ('tlv', 'both'):
         # some SMSCs leave out the terminating NUL of the C-Octet String
-        tlvs = smppref.tlv(0x001E, str(mid).encode() + (b'\x00' if (seqnum + mid) % 3 else b''))
+        tlvs = smppref.tlv(0x001E, idstr(mid).encode() + (b'\x00' if (seqnum + mid) % 3 else b''))
     if how != 'none' and (seqnum * 3 + mid) % 5 == 0:
         # the receipt text travels in the message_payload parameter, short_message is empty
         return smppref.encode_sm(0x5, seqnum, src=b'1', dst=b'2', esm_class=0x04, data_coding=0, short_message=b'',
@@ -142,7 +154,7 @@ async def _run_events(history, esme, cur, out):
             await esme.correlator.put(m)
         elif ev[0] == 'resp':
             _k, uid, cmd, sq, status, mid = ev
-            body = (str(mid).encode() + b'\x00') if cmd == 0x80000004 else b''
+            body = (idstr(mid).encode() + b'\x00') if cmd == 0x80000004 else b''
             pdu = smppref.header(cmd, status, sq, body)
             res = await esme._handle_response(pdu, SmppMessage.parse_header(pdu))
             out.append(('resp', uid, res))
@@ -169,6 +181,74 @@ def observe(out, esme_mod):
         else:
             obs.append([2, ruid, log])
     return obs
+
+
+def late_receipt_session(delay, keepalive, segmented):
+    """a submit_sm (plain or two segments) is accepted; its receipt(s) arrive `delay` seconds later - long after the response time-to-live
+    (15 s), well inside the delivery time-to-live (3 days) - while keep-alive traffic keeps the correlator's sweeps going"""
+    import struct
+    from harness import vsess
+    from aiosmpplib.protocol import SubmitSm, DeliverSm
+    from aiosmpplib.state import PhoneNumber
+    loop = vsess.VLoop()
+    asyncio.set_event_loop(loop)
+    smsc = vsess.FakeSMSC(loop)
+    undo = vsess.install(loop, smsc)
+    obs = {'submits': 0}
+    try:
+        esme, hook = vsess.quiet_esme(enquire_link_interval=float(keepalive), socket_timeout=10.0)
+
+        def rc(seq, mid):
+            text = f'id:{mid} sub:001 dlvrd:001 submit date:2401011200 done date:2401011201 stat:DELIVRD err:000 Text:hello'.encode()
+            return smppref.encode_sm(5, seq, src=b'1', dst=b'2', esm_class=0x04, short_message=text)
+
+        def on_pdu(conn, pdu):
+            for p in vsess.split_pdus(pdu)[0]:
+                cmd, seq = struct.unpack('>I', p[4:8])[0], struct.unpack('>I', p[12:16])[0]
+                if cmd in (1, 2, 9):
+                    conn.send(vsess.bind_resp_for(p))
+                elif cmd == 0x15:
+                    conn.send(smppref.header(0x80000015, 0, seq), delay=0.01)
+                elif cmd == 4:
+                    obs['submits'] += 1
+                    n = obs['submits']
+                    conn.send(smppref.header(0x80000004, 0, seq, b'late%d\x00' % n), delay=0.05)
+                    conn.send(rc(8000 + n, 'late%d' % n), delay=float(delay) + n)
+        smsc.on_pdu = on_pdu
+        src = PhoneNumber('38591')
+
+        async def main():
+            t = asyncio.create_task(esme.start())
+            await asyncio.sleep(0.5)
+            await esme.broker.enqueue(SubmitSm(short_message='s' * 300 if segmented else 'hello', source=src, destination=src, log_id='L', extra_data='X',
+                                               auto_message_payload=not segmented, registered_delivery=1))
+            await asyncio.sleep(float(delay) + 30.0)
+            obs['start_done'] = t.done()
+            obs['receipts'] = [(type(e[1]).__name__, getattr(e[1], 'log_id', None), getattr(e[1], 'extra_data', None)) for e in hook.log
+                               if e[0] == 'received' and struct.unpack('>I', e[2][4:8])[0] == 5]
+            if not t.done():
+                t.cancel()
+                try:
+                    await t
+                except BaseException:  # noqa: BLE001
+                    pass
+        loop.run_until_complete(main())
+    finally:
+        undo()
+        vsess.finish(loop)
+    return obs
+
+
+def oracle_late_receipt(obs, segmented):
+    if obs['start_done']:
+        return 'start() ended'
+    want = 2 if segmented else 1
+    if obs['submits'] != want:
+        return f'{obs["submits"]} submit_sm PDUs written, expected {want}'
+    named = [r for r in obs['receipts'] if r[0] == 'DeliverSm' and r[1] == 'L' and r[2] == 'X']
+    if len(named) != 1 or len(obs['receipts']) != want or any(r[0] == 'DeliverSm' and r[1] != 'L' for r in obs['receipts']):
+        return f'the received hook got {obs["receipts"]} for the receipt(s), expected exactly one DeliverSm carrying the identity of the message'
+    return None
 
 
 def oracle(history, obs):
@@ -306,7 +386,7 @@ def run(ctx):
             flat += [-1]
         flat += [-10]
         for k, v in c._delivery_store._data.items():
-            flat += [int(k), v[1]._vuid]
+            flat += [idnum(k), v[1]._vuid]
         cases.append((coq_events(hist), czl(flat)))
         ctx.case(('hist', i, repr(hist)), nontrivial=any(o[0] == 2 and o[2] != 0 for o in obs))
         for ev in hist:
@@ -337,6 +417,16 @@ def run(ctx):
                 break
         if msg:
             ctx.violation(msg, {'function': 'history', 'history': [list(e) for e in hist]})
+    # ---- receipts that arrive long after the response time-to-live (hours, days), with correlator traffic in between
+    for delay, keepalive in ((60.0, 5.0), (3600.0, 30.0), (2 * 86400.0, 3600.0)) + (((20.0, 1.0), (86400.0, 600.0)) if ctx.thorough else ()):
+        for segmented in (False, True):
+            obs = late_receipt_session(delay, keepalive, segmented)
+            ctx.traces += 1
+            ctx.case(('late_receipt', delay, keepalive, segmented), nontrivial=True)
+            msg = oracle_late_receipt(obs, segmented)
+            if msg:
+                ctx.violation(f'{"segmented" if segmented else "plain"} message accepted, receipt(s) {delay} s later (keep-alive every {keepalive} s): {msg}',
+                              {'function': 'late_receipt', 'delay': delay, 'keepalive': keepalive, 'segmented': segmented})
     # ---- a sequence number that comes round again (restart on a persisted correlator: the generator starts at 1 again, receipts of
     #      the previous run are still to come)
     base_plain = [('put', 1, 5, 1, (0, 0, 0)), ('resp', 2, 0x80000004, 5, 0, 501)]
@@ -377,6 +467,12 @@ def replay(ctx, path):
     import json
     with open(path) as f:
         r = json.load(f)
+    if r.get('function') == 'late_receipt':
+        obs = late_receipt_session(r['delay'], r['keepalive'], r['segmented'])
+        msg = oracle_late_receipt(obs, r['segmented'])
+        print('replay: receipts at the hook:', obs['receipts'])
+        print('replay:', msg or 'property holds on this input')
+        return 1 if msg else 0
     if r.get('function') != 'history':
         return 0
     hist = [tuple(tuple(x) if isinstance(x, list) else x for x in e) for e in r['history']]
